@@ -233,6 +233,60 @@ def make_run_late(W, shape, known_active=None):
     return run
 
 
+def make_run_tunion(W, shape, known_active=None):
+    """type[...] as a member of a union, a class passed as the argument: adding a method that is NOT applicable to the call (on type[Z] for
+    an unrelated class Z, on a parametrised type[list[Z]], of another arity) must not change the outcome"""
+    import typing
+
+    from ovld import Ovld
+
+    ta, tb = shape["tunion"]
+
+    def run(ctx):
+        def mk(extra):
+            LOG = []
+
+            def hu(x: typing.Union[type[W.K[ta]], W.K[tb]]):
+                LOG.append((0,))
+                return 0
+
+            def ho(x: object):
+                LOG.append((1,))
+                return 1
+
+            def e1(x: type[Z]):
+                LOG.append((2,))
+                return 2
+
+            def e2(x: type[list[Z]]):
+                LOG.append((3,))
+                return 3
+
+            def e3(x: type[Z], y: object):
+                LOG.append((4,))
+                return 4
+            ov = Ovld()
+            ov.register(hu, priority=0)
+            ov.register(ho, priority=-1)
+            for e in ([e1], [e2], [e3], [e1, e2])[extra - 1] if extra else []:
+                ov.register(e, priority=0)
+            return ov, LOG
+        base_f, L0 = mk(0)
+        k = 1 + ctx.choose("extra", 4)
+        var_f, L1 = mk(k)
+        ok, trace = True, []
+        for name, a in (("K0", W.K[0]), ("K1", W.K[1]), ("K2", W.K[2]), ("K1()", W.inst[1]), ("K0()", W.inst[0])):
+            b = full_outcome(lambda: base_f.dispatch(a), L0)
+            v = full_outcome(lambda: var_f.dispatch(a), L1)
+            trace.append(dict(arg=name, without_extra=b, with_extra=v))
+            if b != v:
+                ok = False
+        return Verdict(ok, (), dict(family="type[...] in a union + a non-applicable type[...] method", union=f"type[K{ta}] | K{tb}", extra=k, trace=trace),
+                       ["tunion"], nontrivial=True)
+
+    return run
+
+
 _TWO = {}
 
 
@@ -323,6 +377,8 @@ def make_run(W, shape, known_active=None):
         return make_run_derived(W, shape, known_active)
     if shape.get("late"):
         return make_run_late(W, shape, known_active)
+    if shape.get("tunion"):
+        return make_run_tunion(W, shape, known_active)
 
     if known_active is None:
         known_active = runner.active_known_ids(PID)
@@ -468,9 +524,9 @@ def gen_shapes(tier, seed):
     rng.shuffle(kwfam)
     rng.shuffle(rich)
     if tier == "quick":
-        shapes = plain + rich[:150] + kwfam[:40] + twofam[:60] + derfam + [dict(n=n, late=True, derived=None, arg=0)]
+        shapes = plain + rich[:150] + kwfam[:40] + twofam[:60] + derfam + [dict(n=n, late=True, derived=None, arg=0)] + [dict(n=n, tunion=[a_, b_], derived=None, arg=0) for a_ in range(3) for b_ in range(3) if a_ != b_]
     else:
-        shapes = plain + rich[:260] + kwfam + twofam[:400] + derfam + [dict(n=n, late=True, derived=None, arg=0)]
+        shapes = plain + rich[:260] + kwfam + twofam[:400] + derfam + [dict(n=n, late=True, derived=None, arg=0)] + [dict(n=n, tunion=[a_, b_], derived=None, arg=0) for a_ in range(3) for b_ in range(3) if a_ != b_]
         for _ in range(40):
             shapes.append(dict(n=4, methods=rng.sample([("K", i) for i in range(4)] + [("obj",)], 4), arg=0))
     for sh in shapes:
